@@ -473,24 +473,35 @@ def run(ctx):
                       "number_of_edges(u, v) and neighbors(v) are only queried for nodes of the graph",
                       "get_edge_data is read as present/absent per edge type (DESIGN C02)",
                       "attribute values are ints (aliasing of mutable attribute values is documented shallow-copy behaviour)"]
-    cases = [dict(c, src="corpus") for c in C.load_corpus(PID)]
-    cases += list(exhaustive(3 if tier == "quick" else 4))
     nrand = 2000 if tier == "quick" else 50000
+    nmin = 600 if tier == "quick" else 6000      # random histories that always run
+    rnd = []
     for i in range(nrand):
         ops = rand_history(rng, rng.choice((8, 15, 25, 40)))
         case = {"ops": ops, "src": "rnd"}
         if i % 4 == 3:
             case["watch"] = sorted(rng.sample(range(len(ops)), max(1, len(ops) // 4)) + [len(ops) - 1])
             case["src"] = "rnd-sparse"
-        cases.append(case)
+        rnd.append(case)
+    cases = [dict(c, src="corpus") for c in C.load_corpus(PID)]
+    cases += rnd[:nmin]
+    cases += list(exhaustive(3 if tier == "quick" else 4))
+    cases += rnd[nmin:]
     bad_spec, bad_model = [], []
     steps = 0
-    CH = 4000
-    for lo in range(0, len(cases), CH):
-        if time.time() > ctx["deadline"]:
-            ev.extra["stopped_at_deadline_after_histories"] = lo
+    CH = 2000
+    # corpus + exhaustive part always run completely; the random stream is cut at a soft wall-clock
+    # budget so that the tier's time bound holds on a loaded machine (the number actually run is
+    # reported in the evidence)
+    n_fixed = len(cases) - (nrand - nmin)
+    soft = time.time() + float(os.environ.get("VERIF_C02_SOFT_S", "0") or (40 if tier == "quick" else 420))
+    ev.extra["random_histories_generated"] = nrand
+    bounds = list(range(0, n_fixed, CH)) + list(range(n_fixed, len(cases), 500)) + [len(cases)]
+    for lo, hi in zip(bounds, bounds[1:]):
+        if time.time() > ctx["deadline"] or (lo >= n_fixed and time.time() > soft):
+            ev.extra["random_histories_not_run_soft_budget"] = len(cases) - lo
             break
-        chunk = cases[lo:lo + CH]
+        chunk = cases[lo:min(hi, n_fixed) if lo < n_fixed else hi]
         ans = C.lean_batch([line("c02s", c["ops"]) for c in chunk] + [line("c02m", c["ops"]) for c in chunk],
                            jobs=16)
         gots = C.pmap(_impl_chunk, chunk, chunksize=32)
